@@ -15,16 +15,54 @@ package client
 //@ ghost var commitAttempts Int
 //@ ghost var commitsAtLastPrewrite Int
 
+// The per-region RPC helpers. Their ghost clauses DEFINE the counters the two-phase
+// driver is specified with (a prewrite / commit "succeeded" when the helper returned
+// nil); the exit clauses are proved on their bodies: nil is returned only from an RPC
+// that was answered without transport error, without region error and without key
+// errors - in particular not after the retry budget was used up on region errors.
 //@ func (*Client).prewriteRegion
-//@   trusted
+//@   property C28
 //@   ghost commitsAtLastPrewrite = commits
 //@   ghost prewrites = (result == nil ? prewrites + 1 : prewrites)
-//@   modifies nothing
+//@   exit [nil-only-from-a-clean-answer] result == nil ==> err == nil && resp != nil && resp.RegionError == nil && (resp.Response == nil || len(resp.Response.Errors) == 0)
+//@   loop 1 invariant [no-pending-error] lastErr == nil
+//@   modifies heap
 
 //@ func (*Client).commitRegion
-//@   trusted
+//@   property C28
 //@   ghost commitAttempts = commitAttempts + 1
 //@   ghost commits = (result == nil ? commits + 1 : commits)
+//@   exit [nil-only-from-a-clean-answer] result == nil ==> err == nil && resp != nil && resp.RegionError == nil && (resp.Response == nil || resp.Response.Error == nil)
+//@   loop 1 invariant [no-pending-error] lastErr == nil
+//@   modifies heap
+
+//@ func (*Client).regionSnapshot
+//@   trusted
+//@   modifies nothing
+//@ func (*Client).store
+//@   trusted
+//@   ensures [conn-or-error] (result1 == nil) == (result != nil)
+//@   modifies nothing
+//@ func buildContext
+//@   trusted
+//@   modifies nothing
+//@ func cloneKeys
+//@   trusted
+//@   modifies nothing
+//@ func normalizeRPCError
+//@   trusted
+//@   ensures [keeps-failure] err != nil ==> result != nil
+//@   modifies nothing
+//@ func (*Client).handleRegionError
+//@   trusted
+//@   modifies heap
+//@ func github.com/feichai0017/NoKV/pb::(TinyKvClient).KvPrewrite
+//@   trusted
+//@   ensures [answer-or-error] result1 == nil ==> result != nil
+//@   modifies nothing
+//@ func github.com/feichai0017/NoKV/pb::(TinyKvClient).KvCommit
+//@   trusted
+//@   ensures [answer-or-error] result1 == nil ==> result != nil
 //@   modifies nothing
 
 //@ func (*Client).regionForKey
